@@ -27,7 +27,7 @@ def random_space(rng: random.Random, max_dims: int = 6, heavy: bool = False):
         base = {"neg": -(k + 5) * p * 1.5, "zero": 0.0, "pos": 2.5 * p, "span": -p * (k // 2 + 0.5)}[sign]
         r = rng.choice([0, 0, 1])
         lo.append(base)
-        up.append(base + k * p + (0.5 * p if r else 0.0))
+        up.append(base + k * p + (rng.choice([0.5, 0.5, 0.75, 0.9]) * p if r else 0.0))      # (a gap below, at or above half a step)
         pr.append(p)
         rem.append(r)
     return [lo, up], pr, rem
